@@ -81,6 +81,16 @@ def tlc_parallel(jobs: Sequence[Tuple[str, str, Dict[str, Any]]], threads: int =
         return [f.result() for f in futs]
 
 
+def _die_with_parent() -> None:
+    """Child-side: have the kernel kill the JVM if the harness process goes away (e.g. is killed for memory)."""
+    try:
+        import ctypes
+
+        ctypes.CDLL("libc.so.6", use_errno=True).prctl(1, 9)  # PR_SET_PDEATHSIG, SIGKILL
+    except Exception:  # noqa: BLE001
+        pass
+
+
 def tlc(
     module: str,
     cfg: str,
@@ -140,7 +150,7 @@ def tlc(
     res = TlcResult()
     with open(out_path, "wb") as out:
         try:
-            p = subprocess.run(cmd, stdout=out, stderr=subprocess.STDOUT, env=e, timeout=timeout, cwd=str(SPEC))
+            p = subprocess.run(cmd, stdout=out, stderr=subprocess.STDOUT, env=e, timeout=timeout, cwd=str(SPEC), preexec_fn=_die_with_parent)
             res.rc = p.returncode
         except subprocess.TimeoutExpired:
             raise MachineryError(f"TLC timed out after {timeout}s on {module}")
